@@ -3,6 +3,7 @@ pub mod desc;
 pub mod vec;
 pub mod reg;
 pub mod local;
+pub mod timer;
 use crate::Area;
 pub fn lookup(name: &str) -> Option<Box<dyn Area>> {
     match name {
@@ -11,6 +12,7 @@ pub fn lookup(name: &str) -> Option<Box<dyn Area>> {
         "vec" => Some(Box::new(vec::VecArea)),
         "reg" => Some(Box::new(reg::RegArea)),
         "local" => Some(Box::new(local::LocalArea)),
+        "timer" => Some(Box::new(timer::TimerArea)),
         _ => None,
     }
 }
